@@ -61,13 +61,14 @@ func (c *vConn) SetWriteDeadline(t time.Time) error { return nil }
 
 // A well-formed client byte stream (SETTINGS, a GET on stream 1, a POST with a
 // body on stream 3, a PING: 76 bytes) is cut off after any number of bytes
-// and the peer disconnects; the server's writes fail from a chosen byte on (or
+// (thorough: delivered in two pieces split at any byte) and the peer
+// disconnects; the server's writes fail from a chosen byte on (or
 // never); handlers return at once or are still running when the peer goes.
 // The real Serve runs with all its goroutines as tasks. No task traps, Serve
 // returns, and once the handlers have returned no task is left and no stream
 // or request context sits in a pool twice.
 //
-//verif:harness prop=C17 unwind=300 timeout=900
+//verif:harness prop=C17 unwind=300 timeout=900 timeoutT=3000 maxstates=1000000
 func VerifH_C17_cut() {
 	var wire []byte
 	wire = append(wire, vFrame(0x4, 0x0, 0, nil)...)
@@ -101,8 +102,18 @@ func VerifH_C17_cut() {
 	result := make(chan error, 1)
 	go func() { result <- sc.Serve() }()
 
-	if cut > 0 {
-		conn.in <- wire[:cut]
+	// thorough tier: the bytes arrive in two pieces, so that every frame is
+	// also seen half-read with the rest still to come
+	first := cut
+	if vTier() > 0 {
+		first = vRange(0, cut)
+	}
+	if first > 0 {
+		conn.in <- wire[:first]
+		vSettle()
+	}
+	if cut > first {
+		conn.in <- wire[first:cut]
 	}
 	vSettle()
 	close(conn.in) // the peer is gone
